@@ -252,6 +252,13 @@ func rpc(c *harness.Ctx) {
 				total++
 			}
 		}
+	}
+	// the server pool is spawned before anything runs
+	// everything the tasks read is written before the first task is spawned (spawn is the only
+	// happens-before edge the kernel gives them)
+	w.net.faults = faultsFor(c)
+	w.net.grow(sim, total*2+2)
+	if w.late != nil {
 		sim.Go("late-register", func() {
 			kern.Yield("before-late-register")
 			w.late.Register(w.srv, w.mocks[w.late].Interface())
@@ -264,9 +271,6 @@ func rpc(c *harness.Ctx) {
 			}
 		})
 	}
-	// the server pool is spawned before anything runs
-	w.net.grow(sim, total*2+2)
-	w.net.faults = faultsFor(c)
 	for t := range plan {
 		t := t
 		sim.Go(fmt.Sprintf("caller%d", t), func() {
